@@ -320,6 +320,47 @@ reg(
 )
 
 reg(
+    "C14",
+    "translation_validation",
+    "YAMLLOAD evaluates the YAML loader from MIR — YamlIndex::build (oracle parser, index construction) then root(text).to_json_document() "
+    "(navigation, scalar decoding and plain resolution, alias resolution, JSON streaming) — on the generated presentation space of rules/yamlgen.py: "
+    "trees of mappings / sequences / string-int-bool-null leaves (strings with YAML indicators, reserved words, leading/trailing spaces, non-ASCII, "
+    "control characters) rendered with an independent presentation choice at every node (block / flow / compact / indentless collections, plain / "
+    "single / double / literal / folded scalars, comments, blank lines, anchors + aliases, explicit keys, document markers, several documents), "
+    "with LF and, for a share, CRLF and CR breaks; the JSON text read by Python's json must equal the tree with exact types. Every stream is "
+    "cross-checked with PyYAML's BaseLoader before use. Named documents cover shapes kept out of the random family. A deterministic sample of "
+    "the space (60 streams quick, 1500 thorough), not the space.",
+    [only_cfgs(_lazy("yamlload", "rule_load", n_quick=60), ["cli"])],
+    quick=["cli"],
+    technique="finite-domain evaluation of parser/index/cursor MIR over a generated presentation family vs the generating tree",
+)
+
+reg(
+    "C22",
+    "translation_validation",
+    "CSVRT evaluates the writer (jq::eval::format_csv / format_dsv incl. quote_csv_field) and the reader (the CLI's parse_dsv_input: DSV index, "
+    "rows/fields, strip_quotes_and_decode) from MIR and composes them: the printed line plus the newline raw output adds must read back as exactly "
+    "one row equal to the array. Arrays of 1..20 strings over {delimiter, quote, CR, LF, space, letters, non-ASCII, empty} (every string up to "
+    "length 2, longer mixes), ten delimiters quick / every printable ASCII delimiter other than the quote thorough. A family, not all arrays; the "
+    "CLI's argument handling (`-r`, `--input-dsv`) is not evaluated.",
+    [only_cfgs(_lazy("csvrt", "rule_csv"), ["cli"])],
+    quick=["cli"],
+    technique="finite-domain evaluation of writer and reader MIR composed (writer/reader round trip on a string-array family)",
+)
+
+reg(
+    "C21",
+    "translation_validation",
+    "DSVNAV evaluates Dsv::parse_with_config, rows()/fields() iteration, row(n) and DsvRow::get(i) (every n and i, incl. out of range) from MIR on "
+    "every byte string up to a bounded length over {delimiter, quote, separator, letter, CR} for several configurations of distinct special bytes, "
+    "plus texts crossing the 64-byte chunk and the rank blocks, against quote-aware splitting; random access must equal iteration and appending a "
+    "record separator to a balanced non-empty text must change nothing. Bounded-exhaustive plus boundary texts, not all byte strings.",
+    [only_cfgs(_lazy("dsvnav", "rule_dsvnav"), ["cli"])],
+    quick=["cli"],
+    technique="finite-domain evaluation of DSV index/cursor MIR, bounded-exhaustive over a special-byte alphabet, vs quote-aware splitting",
+)
+
+reg(
     "C07",
     "translation_validation",
     "JSONPOS evaluates json::light from MIR on valid documents and on arbitrary byte strings over a structural-character alphabet: ib_rank1 at "
